@@ -1015,6 +1015,12 @@ func (rl *Shell) shellKillWord() {
 
 	_, epos := rl.selection.Pos()
 
+	// No shell word ends after the cursor: nothing to kill.
+	if epos < startPos {
+		rl.selection.Reset()
+		return
+	}
+
 	rl.Buffers.Write([]rune((*rl.line)[startPos:epos])...)
 	rl.line.Cut(startPos, epos)
 	rl.cursor.Set(startPos)
